@@ -1,5 +1,5 @@
 CONSTANTS Budget = 2 MaxItems = 1 Sim = FALSE Headers = "plain"
-  Masked = {"clause_guard", "pas_var"}
+  Masked = {"pas_var"}
 SPECIFICATION Spec
 INVARIANTS PendingInvisible TargetsAreBinders Balanced ScopeDeclarative RenameComplete EmitCase
 CHECK_DEADLOCK FALSE
